@@ -219,8 +219,14 @@ package file
 //@   assume-safe "offsetStr := line[pos+2:]" only lines produced by the writer are in scope
 //@   assert at "stream := pipeline.StreamName(line[4:pos])" forall k :: (0 <= k && 4 + k + 1 < len(line) && line[4+k] == ':' && line[4+k+1] == ' ' && nochr(line[4+k+1:], ':')) ==> pos == 4 + k
 //@   cover at "streams[stream] = offset" len(stream) == 0 && pos == 4 && len(line) >= 7 && line[5] == ' '
-//@   callee parseLine(c, p)
+//@   ghost bad bool = false
+//@   ensures result1 != nil ==> bad || has || linePos < 5 || line[:4] != "    " || pos < 0
+//@   callee parseLine(c, p) (v, rest, err)
 //@     requires true
+//@     set bad := bad || err != nil
+//@   callee ParseInt(s, b, n) (v, err)
+//@     pure
+//@     set bad := bad || err != nil
 
 // ---------------------------------------------------------------------------
 // C03: the sequential facts the restart argument rests on.
@@ -428,3 +434,33 @@ package file
 //@     pure
 //@   callee Unlock()
 //@     pure
+
+// ---------------------------------------------------------------------------
+// C07: parseOne rejects an entry only for one of the reasons the writer can never
+// produce: a line that does not parse (parseLine / parseOptionalLine), a number that
+// does not parse, a second entry with the same source id, or a bad stream list.
+// Anything else - e.g. two jobs with one inode and different source ids (a file and
+// a symlink to it), which save writes - must be accepted: one rejected entry makes
+// the whole offsets file unloadable and the next start panics.
+
+//@ func (*offsetDB).parseOne
+//@   ghost bad bool = false
+//@   ensures result1 != nil ==> bad || has
+//@   callee parseLine(c, p) (v, rest, err)
+//@     requires true
+//@     set bad := bad || err != nil
+//@   callee parseOptionalLine(c, p) (v, rest, err)
+//@     set bad := bad || err != nil
+//@   callee ParseUint(s, b, n) (v, err)
+//@     pure
+//@     set bad := bad || err != nil
+//@   callee ParseInt(s, b, n) (v, err)
+//@     pure
+//@     set bad := bad || err != nil
+//@   callee parseStreams(c, st) (rest, err)
+//@     set bad := bad || err != nil
+//@   callee GetInaccurateUnixNano() (t)
+//@     pure
+//@   callee Errorf(f, a) (e)
+//@     pure
+//@     ensures e != nil
